@@ -359,8 +359,9 @@ def _fk_roundtrip(case, ctx):
     # predicate can be as narrow as that defect
     tag = ""
     if fails and _pose_err(model, Tt_now, sps.neutral_top(model, T_bot)) <= 1e-9 * max(1.0, model.scale, big):
+        low = min(h, float(ws.T_rel[2, 3])) < 0.5 * model.lmin * (1 + 1e-6)     # where the (fixed) height clamp bit
         tag = "[raphson-gave-up ratio=%.6f rot=%.6f flat=%d] " % (
-            model.spec["rt"] / model.spec["rb"], float(np.linalg.norm(u[3:])), int(h < model.lmin / 2))
+            model.spec["rt"] / model.spec["rb"], float(np.linalg.norm(u[3:])), int(low))
     msg = "%sFK(mode %d, h=%.4g, tol=%.3g)" % (tag, mode, h, tol)
     if e_ret > tol:
         raise Violation("%s: returned pose is %.3g from the goal pose (largest displacement of a top-plate point)"
@@ -380,8 +381,8 @@ def raphson_region(case, message):
     """Proposed open known finding C09-raphson-inexact-jacobian: SPFKinSpaceR's orientation columns are Euler-angle
     partials although the unknowns are a rotation vector; the iteration is then not locally convergent for a small top
     plate under a large tilt, runs out of iterations and FK silently returns the neutral pose.  Region: the solver gave
-    up (signature above) AND top/bottom radius ratio <= 0.40 AND |rotation vector| >= 0.25 AND the platform is not
-    'flat' (h >= leg_ext_min/2; the flat case is the separate, fixed, height-clamp defect)."""
+    up (signature above) AND top/bottom radius ratio <= 0.40 AND |rotation vector| >= 0.25 AND neither the neutral
+    nor the goal height is below leg_ext_min/2 ('flat=0'; below it is the separate, fixed, height-clamp defect)."""
     m = _TAG.search(message)
     if not m:
         return None
@@ -468,9 +469,9 @@ def _fk_cases(kind):
 
 
 CLAUSES = [
-    Clause("ik_exact_geometry", c_ik_exact, _ik_cases(), 300, 10000),
-    Clause("ik_rigid_motion_invariance", c_ik_invariance, _inv_cases(), 250, 10000),
-    Clause("fk_inverts_ik", _fk_roundtrip, _fk_cases("fresh"), 300, 10000, region=raphson_region),
-    Clause("fk_inverts_ik_moved", _fk_roundtrip, _fk_cases("moved"), 250, 10000, region=raphson_region),
-    Clause("fk_inverts_ik_spun", _fk_roundtrip, _fk_cases("spun"), 250, 10000, region=raphson_region),
+    Clause("ik_exact_geometry", c_ik_exact, _ik_cases(), 300, 8000),
+    Clause("ik_rigid_motion_invariance", c_ik_invariance, _inv_cases(), 200, 6000),
+    Clause("fk_inverts_ik", _fk_roundtrip, _fk_cases("fresh"), 400, 12000, region=raphson_region),
+    Clause("fk_inverts_ik_moved", _fk_roundtrip, _fk_cases("moved"), 400, 12000, region=raphson_region),
+    Clause("fk_inverts_ik_spun", _fk_roundtrip, _fk_cases("spun"), 400, 12000, region=raphson_region),
 ]
